@@ -17,26 +17,51 @@ type ModbusTCPAssembler struct {
 func (m *ModbusTCPAssembler) ReceiveRead(ctx context.Context, received []byte, bytesRead int) (response []byte, closeConnection bool) {
 	m.received.Write(received)
 
-	n, err := packet.LooksLikeModbusTCP(m.received.Bytes(), false)
-	if err == packet.ErrTCPDataTooShort {
-		return nil, false // wait for more data to arrive
-	} else if err != nil {
-		return err.(*packet.ErrorParseTCP).Bytes(), false
+	// single read can complete more than one request (client is allowed to send next request before reading the response)
+	for {
+		resp, isHandled, closeConn := m.handleNextPacket(ctx)
+		if !isHandled {
+			return response, false // wait for more data to arrive
+		}
+		response = append(response, resp...)
+		if closeConn {
+			return response, true
+		}
+	}
+}
+
+// handleNextPacket handles first request in the buffer when it has been received completely and removes it from the buffer.
+func (m *ModbusTCPAssembler) handleNextPacket(ctx context.Context) (response []byte, isHandled bool, closeConnection bool) {
+	n, looksErr := packet.LooksLikeModbusTCP(m.received.Bytes(), false)
+	if looksErr == packet.ErrTCPDataTooShort {
+		return nil, false, false
+	}
+	if looksErr == packet.ErrIsNotTCPPacket {
+		// we can not know where next packet starts in that stream. drop everything and end the connection
+		m.received.Reset()
+		return packet.ErrIsNotTCPPacket.Bytes(), true, true
+	}
+	if m.received.Len() < n {
+		return nil, false, false // nothing is answered before request has been completely received
+	}
+	data := m.received.Next(n)
+	if looksErr != nil { // unsupported function code
+		return looksErr.(*packet.ErrorParseTCP).Bytes(), true, false
 	}
 
-	p, err := packet.ParseTCPRequest(m.received.Next(n))
+	p, err := packet.ParseTCPRequest(data)
 	if err != nil {
-		return err.(*packet.ErrorParseTCP).Bytes(), false
+		return err.(*packet.ErrorParseTCP).Bytes(), true, false
 	}
 
 	resp, err := m.Handler.Handle(ctx, p)
 	if err != nil {
 		var target *packet.ErrorParseTCP
 		if errors.As(err, &target) {
-			return target.Bytes(), false
+			return target.Bytes(), true, false
 		}
-		return packet.NewErrorParseTCP(packet.ErrUnknown, err.Error()).Bytes(), false
+		return packet.NewErrorParseTCP(packet.ErrUnknown, err.Error()).Bytes(), true, false
 	}
 
-	return resp.Bytes(), false
+	return resp.Bytes(), true, false
 }
